@@ -319,4 +319,289 @@ theorem flush_first29 (gz : Gz) (rq : Req) (s : St) (K : Nat) (ci : CI rq s.base
     refine ⟨f1, f2, ⟨rfl, hfl, fun h => (by rw [f3] at h; cases h), fun _ => hout⟩, f3, f4, f5, ?_⟩
     simp [fed, fedOf]
 
+/-! ### finish -/
+
+theorem hFinish_stages29 (gz : Gz) (rq : Req) (s : St) (chunk : Option Bytes) (hf : s.base.finished = false)
+    (p : C02.St × Bool) (hp : p = (if (!(addBuf s.base chunk).headersWritten) = true then finishPrep rq (addBuf s.base chunk)
+             else (addBuf s.base chunk, false))) :
+    hFinish gz rq s chunk =
+      (if p.2 = true then ({ s with base := p.1 }, true)
+       else if (hFlush gz rq { s with base := p.1 } true).2 = true then ((hFlush gz rq { s with base := p.1 } true).1, true)
+       else if (cFinish (hFlush gz rq { s with base := p.1 } true).1.base.conn).2 = true
+         then ({ (hFlush gz rq { s with base := p.1 } true).1 with
+                  base := { (hFlush gz rq { s with base := p.1 } true).1.base with
+                    conn := (cFinish (hFlush gz rq { s with base := p.1 } true).1.base.conn).1 } }, true)
+         else ({ (hFlush gz rq { s with base := p.1 } true).1 with
+                  base := { (hFlush gz rq { s with base := p.1 } true).1.base with
+                    conn := (cFinish (hFlush gz rq { s with base := p.1 } true).1.base.conn).1, finished := true } },
+               false)) := by
+  subst hp
+  unfold hFinish
+  rw [if_neg (bool_ne_of_eq_false hf)]
+  cases chunk <;> rfl
+
+/-- the outcome of the flush inside `finish()` that the rest of `finish()` needs -/
+def FlushedOK (gz : Gz) (rq : Req) (q : St × Bool) (body : Bytes) (code : Nat) : Prop :=
+  q.2 = false ∧ Written rq q.1.base.conn false ∧ q.1.base.conn.closed = false ∧
+  (q.1.base.conn.expected = none ∨ q.1.base.conn.expected = some 0) ∧
+  fed q.1 = body ∧
+  (q.1.t.gzipping = true → Spec.WellClosed q.1.t.hist ∧
+    q.1.base.conn.sent.flatten = (Spec.outputs gz q.1.t.hist).flatten) ∧
+  ∃ hs, q.1.base.conn.head = some (code, hs)
+
+/-- the finishing flush when the head is already on the wire -/
+theorem finflush_written29 (gz : Gz) (rq : Req) (s : St) (K : Nat) (ci : CI rq s.base K) (ti : TI gz s)
+    (hm : (rq.method == Method.head) = false) (hw : s.base.headersWritten = true) :
+    FlushedOK gz rq (hFlush gz rq s true) (fed s ++ s.base.buf.flatten) K := by
+  obtain ⟨f1, f2, f3, _, _, f6, f7⟩ := flush_written29 gz rq s K true ci ti hm hw
+  obtain ⟨g1, g2, hs, g3⟩ := f2.live f3
+  refine ⟨f1, Written_of_WF_open rq _ f2.wf f3 g1, g1, Or.inl g2, ?_, ?_, hs, g3⟩
+  · unfold fed fedOf
+    rw [f6, f7]
+    cases hg : s.t.gzipping <;> simp [hg]
+  · intro hgz
+    rw [f6] at hgz ⊢
+    rw [f7]
+    cases hg : s.t.gzipping with
+    | false => rw [hg] at hgz; simp only [Bool.false_eq_true, if_false] at hgz; rw [hg] at hgz; cases hgz
+    | true =>
+      simp only [if_true]
+      refine ⟨⟨s.t.hist, s.base.buf.flatten, rfl, ti.fl⟩, ?_⟩
+      rw [ti.out hg, outputs_append]; simp
+
+/-- the finishing flush when nothing has been written yet: the map carries the automatic Content-Length -/
+theorem finflush_first29 (gz : Gz) (rq : Req) (s : St) (ti : TI gz s) (p : Pre rq s.base)
+    (hm : (rq.method == Method.head) = false) (hn : noBodyStatus s.base.status = false)
+    (hcl : dget nCL s.base.hdrs = some [toDec s.base.buf.flatten.length]) :
+    FlushedOK gz rq (hFlush gz rq s true) s.base.buf.flatten s.base.status := by
+  have hw : s.base.headersWritten = false := p.2.2.2.1
+  have hh : s.t.hist = [] := ti.pre hw
+  rw [hFlush_unwritten gz rq s true hw]
+  rcases transformFirst_cases gz s.t s.base.status s.base.hdrs s.base.buf.flatten true ti.open_ with e | e
+  · rw [e]
+    have w' : WF rq { s.base with hdrs := addVary s.base.hdrs, buf := [s.base.buf.flatten] } :=
+      ⟨p.1, p.2.1, p.2.2.1, fun _ => ⟨p.2.2.2.2.1, HOK_addVary _ p.2.2.2.2.2⟩,
+        fun h => absurd (show s.base.headersWritten = true from h) (bool_ne_of_eq_false hw)⟩
+    have hcl' : dget nCL (addVary s.base.hdrs) = some [toDec [s.base.buf.flatten].flatten.length] := by
+      rw [dget_nCL_addVary, hcl]; simp
+    obtain ⟨f1, f2, f3, f4, f5, hs, f6⟩ := hFlushCore_cl rq _ w' hm hw hn hcl'
+    refine ⟨f1, f2, f3, Or.inr f4, ?_, fun h => (by cases h), hs, f6⟩
+    show fedOf { s.t with gzipping := false } _ = _
+    unfold fedOf
+    simp only [Bool.false_eq_true, if_false]
+    rw [f5]; simp
+  · rw [e, hh]
+    simp only [List.nil_append]
+    obtain ⟨o, ho⟩ : ∃ o, o = gz [(s.base.buf.flatten, true)] := ⟨_, rfl⟩
+    rw [← ho]
+    have w' : WF rq { s.base with hdrs := gzHdrs s.base.hdrs true o.length, buf := [o] } :=
+      ⟨p.1, p.2.1, p.2.2.1, fun _ => ⟨p.2.2.2.2.1, HOK_gzHdrs _ p.2.2.2.2.2 _ _⟩,
+        fun h => absurd (show s.base.headersWritten = true from h) (bool_ne_of_eq_false hw)⟩
+    have hcl' : dget nCL (gzHdrs s.base.hdrs true o.length) = some [toDec [o].flatten.length] := by
+      rw [gzHdrs_fin_cl _ _ _ hcl]; simp
+    obtain ⟨f1, f2, f3, f4, f5, hs, f6⟩ := hFlushCore_cl rq _ w' hm hw hn hcl'
+    refine ⟨f1, f2, f3, Or.inr f4, ?_, fun _ => ⟨⟨[], s.base.buf.flatten, rfl, by simp⟩, ?_⟩, hs, f6⟩
+    · simp [fed, fedOf]
+    · show _ = (Spec.outputs gz [(s.base.buf.flatten, true)]).flatten
+      rw [f5, ho]; simp [Spec.outputs, Spec.outputsFrom]
+
+/-- what a clean run ends in: the client reads exactly one response whose body is what the connection accepted;
+    that is the transform's output; the transform's input is `body`; the gzip stream was closed once, at the end -/
+def Finished (gz : Gz) (rq : Req) (f : St) (body : Bytes) (code : Nat) : Prop :=
+  f.base.finished = true ∧ fed f = body ∧
+  (f.t.gzipping = true → Spec.WellClosed f.t.hist ∧ f.base.conn.sent.flatten = (Spec.outputs gz f.t.hist).flatten) ∧
+  ∃ hs, f.base.conn.head = some (code, hs) ∧
+    clientParse (rq.method == .head) (wire f.base.conn) f.base.conn.closed
+      = .ok (expectedResp rq f.base.conn code hs, [])
+
+/-- `finish(b)` in a clean run -/
+theorem hFinish_clean29 (gz : Gz) (rq : Req) (hrq : reqOK rq = true) (hm : (rq.method == Method.head) = false)
+    (hinm : rq.inmMatch = false) (s : St) (K : Nat) (b : Option Bytes) (ci : CI rq s.base K) (ti : TI gz s) :
+    (hFinish gz rq s b).2 = false ∧
+    Finished gz rq (hFinish gz rq s b).1 (fed s ++ s.base.buf.flatten ++ b.getD [])
+      (if s.base.headersWritten then K else s.base.status) := by
+  have w0 := WF_addBuf rq s.base b ci.wf
+  have hst : (addBuf s.base b).status = s.base.status := by cases b <;> rfl
+  have hhw : (addBuf s.base b).headersWritten = s.base.headersWritten := by cases b <;> rfl
+  have hcn : (addBuf s.base b).conn = s.base.conn := by cases b <;> rfl
+  have hhd : (addBuf s.base b).hdrs = s.base.hdrs := by cases b <;> rfl
+  have hbf : (addBuf s.base b).buf.flatten = s.base.buf.flatten ++ b.getD [] := by
+    cases b <;> simp [addBuf]
+  have key : ∀ p : C02.St × Bool, p = (if (!(addBuf s.base b).headersWritten) = true then finishPrep rq (addBuf s.base b)
+             else (addBuf s.base b, false)) →
+      p.2 = false ∧ FlushedOK gz rq (hFlush gz rq { s with base := p.1 } true)
+        (fed s ++ s.base.buf.flatten ++ b.getD []) (if s.base.headersWritten then K else s.base.status) := by
+    intro p hp
+    by_cases hw : s.base.headersWritten = true
+    · have hw0 : (addBuf s.base b).headersWritten = true := hhw.trans hw
+      have : p = (addBuf s.base b, false) := by rw [hp]; simp [hw0]
+      rw [this]
+      have ci0 : CI rq (addBuf s.base b) K := ⟨w0, by rw [hst]; exact ci.nb,
+        fun h => absurd hw0 (bool_ne_of_eq_false h), fun _ => by rw [hcn]; exact ci.live hw⟩
+      have ti0 : TI gz { s with base := addBuf s.base b } :=
+        ⟨ti.open_, ti.fl, fun h => absurd hw0 (bool_ne_of_eq_false h), fun h => by
+          show (addBuf s.base b).conn.sent.flatten = _
+          rw [hcn]; exact ti.out h⟩
+      have r := finflush_written29 gz rq { s with base := addBuf s.base b } K ci0 ti0 hm hw0
+      have hfed : fed { s with base := addBuf s.base b } = fed s := by
+        show fedOf s.t (addBuf s.base b).conn.sent = fedOf s.t s.base.conn.sent
+        rw [hcn]
+      refine ⟨rfl, ?_⟩
+      rw [if_pos hw]
+      have hb : fed s ++ s.base.buf.flatten ++ b.getD [] =
+          fed { s with base := addBuf s.base b } ++ ({ s with base := addBuf s.base b } : St).base.buf.flatten := by
+        rw [hfed]
+        show _ = fed s ++ (addBuf s.base b).buf.flatten
+        rw [hbf, List.append_assoc]
+      rw [hb]
+      exact r
+    · have hw' : s.base.headersWritten = false := by simpa using hw
+      have hw0 : (addBuf s.base b).headersWritten = false := hhw.trans hw'
+      have : p = finishPrep rq (addBuf s.base b) := by rw [hp]; simp [hw0]
+      rw [this]
+      obtain ⟨q1, q2, q3, q4, q5, q6⟩ := finishPrep_clean rq hrq hinm (addBuf s.base b) (Pre_of_WF rq _ w0 hw0)
+        (by rw [hst]; exact ci.nb) (by rw [hhd]; exact ci.ncl hw')
+      have ti1 : TI gz { s with base := (finishPrep rq (addBuf s.base b)).1 } :=
+        ⟨ti.open_, ti.fl, fun _ => ti.pre hw', fun h => by
+          show (finishPrep rq (addBuf s.base b)).1.conn.sent.flatten = _
+          rw [q5, hcn]; exact ti.out h⟩
+      have r := finflush_first29 gz rq { s with base := (finishPrep rq (addBuf s.base b)).1 } ti1 q2 hm
+        (by show noBodyStatus (finishPrep rq (addBuf s.base b)).1.status = false
+            rw [q3, hst]; exact ci.nb)
+        (by show dget nCL (finishPrep rq (addBuf s.base b)).1.hdrs = some [toDec (finishPrep rq (addBuf s.base b)).1.buf.flatten.length]
+            rw [q6, q4])
+      refine ⟨q1, ?_⟩
+      rw [if_neg hw]
+      have hb : fed s ++ s.base.buf.flatten ++ b.getD [] = (finishPrep rq (addBuf s.base b)).1.buf.flatten := by
+        rw [(fed_pre gz rq s K ci ti hw').1, q4, hbf]; rfl
+      have hc : s.base.status = (finishPrep rq (addBuf s.base b)).1.status := by rw [q3, hst]
+      rw [hb, hc]
+      exact r
+  obtain ⟨p, hp⟩ : ∃ p, p = (if (!(addBuf s.base b).headersWritten) = true then finishPrep rq (addBuf s.base b)
+             else (addBuf s.base b, false)) := ⟨_, rfl⟩
+  obtain ⟨k1, k2, k3, k4, k5, k6, k7, hs, k8⟩ := key p hp
+  obtain ⟨m1, m2, m3, code, hs', m4, m5⟩ := parse_after_cFinish rq _ k3 k4 k5
+  rw [k8] at m4; cases m4
+  rw [hFinish_stages29 gz rq s b ci.wf.fin p hp]
+  rw [if_neg (bool_ne_of_eq_false k1), if_neg (bool_ne_of_eq_false k2), if_neg (bool_ne_of_eq_false m1)]
+  refine ⟨rfl, rfl, ?_, ?_, hs, ?_, m5⟩
+  · show fedOf (hFlush gz rq { s with base := p.1 } true).1.t
+      (cFinish (hFlush gz rq { s with base := p.1 } true).1.base.conn).1.sent = _
+    rw [m2]; exact k6
+  · intro hg
+    obtain ⟨a1, a2⟩ := k7 hg
+    refine ⟨a1, ?_⟩
+    show (cFinish (hFlush gz rq { s with base := p.1 } true).1.base.conn).1.sent.flatten = _
+    rw [m2]; exact a2
+  · show (cFinish (hFlush gz rq { s with base := p.1 } true).1.base.conn).1.head = _
+    rw [m3, k8]
+
+/-! ### steps and runs -/
+
+theorem step_other_conn (rq : Req) (b : C02.St) (op : Op) (h1 : op ≠ .flush) (h2 : ∀ x, op ≠ .finish x) :
+    (C02.step rq b op).1.conn = b.conn ∧ (C02.step rq b op).1.headersWritten = b.headersWritten := by
+  cases op with
+  | setStatus c => exact ⟨rfl, rfl⟩
+  | setHeader n v => simp only [C02.step]; split <;> exact ⟨rfl, rfl⟩
+  | addHeader n v => simp only [C02.step]; split <;> (try split) <;> exact ⟨rfl, rfl⟩
+  | clearHeader n => exact ⟨rfl, rfl⟩
+  | write x => simp only [C02.step]; split <;> exact ⟨rfl, rfl⟩
+  | flush => exact absurd rfl h1
+  | finish x => exact absurd rfl (h2 x)
+
+theorem step_eq_other (gz : Gz) (rq : Req) (s : St) (op : Op) (h1 : op ≠ .flush) (h2 : ∀ x, op ≠ .finish x) :
+    step gz rq s op = ({ s with base := (C02.step rq s.base op).1 }, (C02.step rq s.base op).2) := by
+  cases op with
+  | flush => exact absurd rfl h1
+  | finish x => exact absurd rfl (h2 x)
+  | _ => rfl
+
+/-- a non-finishing clean op: never raises, keeps both invariants, and accounts for exactly what it writes -/
+theorem step_clean29 (gz : Gz) (rq : Req) (hm : (rq.method == Method.head) = false) (s : St) (K : Nat) (op : Op)
+    (ops : List Op) (ci : CI rq s.base K) (ti : TI gz s) (hop : opClean op = true) (hnf : ∀ b, op ≠ .finish b) :
+    ∃ K', (step gz rq s op).2 = false ∧ CI rq (step gz rq s op).1.base K' ∧ TI gz (step gz rq s op).1 ∧
+      fed (step gz rq s op).1 ++ (step gz rq s op).1.base.buf.flatten ++ bodyOf ops
+        = fed s ++ s.base.buf.flatten ++ bodyOf (op :: ops) ∧
+      tgt (step gz rq s op).1.base K' ops = tgt s.base K (op :: ops) := by
+  by_cases hfl : op = .flush
+  · subst hfl
+    show ∃ K', (hFlush gz rq s false).2 = false ∧ CI rq (hFlush gz rq s false).1.base K' ∧ TI gz (hFlush gz rq s false).1 ∧
+      fed (hFlush gz rq s false).1 ++ (hFlush gz rq s false).1.base.buf.flatten ++ bodyOf ops
+        = fed s ++ s.base.buf.flatten ++ bodyOf (Op.flush :: ops) ∧
+      tgt (hFlush gz rq s false).1.base K' ops = tgt s.base K (Op.flush :: ops)
+    by_cases hw : s.base.headersWritten = true
+    · obtain ⟨f1, f2, f3, f4, f5, f6, f7⟩ := flush_written29 gz rq s K false ci ti hm hw
+      obtain ⟨t1, t2⟩ := TI_after gz s _ ti f3 f6 f7
+      refine ⟨K, f1, f2, t1, ?_, ?_⟩
+      · rw [t2, f4]; simp [bodyOf]
+      · unfold tgt; rw [f3, hw]; simp
+    · have hw' : s.base.headersWritten = false := by simpa using hw
+      obtain ⟨f1, f2, f3, f4, f5, f6, f7⟩ := flush_first29 gz rq s K ci ti hm hw'
+      refine ⟨s.base.status, f1, f2, f3, ?_, ?_⟩
+      · rw [f7, f5, (fed_pre gz rq s K ci ti hw').1]; simp [bodyOf]
+      · unfold tgt; rw [f4, hw']; simp [headStatus]
+  · rw [step_eq_other gz rq s op hfl hnf]
+    obtain ⟨K', g1, g2, g3, g4⟩ := step_clean rq hm s.base K op ops ci hop hnf
+    obtain ⟨c1, c2⟩ := step_other_conn rq s.base op hfl hnf
+    have g3' : (C02.step rq s.base op).1.buf.flatten ++ bodyOf ops = s.base.buf.flatten ++ bodyOf (op :: ops) := by
+      rw [c1, List.append_assoc, List.append_assoc] at g3
+      exact List.append_cancel_left g3
+    refine ⟨K', g1, g2, ⟨ti.open_, ti.fl, fun h => ti.pre (c2 ▸ h), fun h => ?_⟩, ?_, g4⟩
+    · show (C02.step rq s.base op).1.conn.sent.flatten = _
+      rw [c1]; exact ti.out h
+    · show fedOf s.t (C02.step rq s.base op).1.conn.sent ++ (C02.step rq s.base op).1.buf.flatten ++ bodyOf ops = _
+      rw [c1, List.append_assoc, g3', ← List.append_assoc]; rfl
+
+theorem runOps_finished29 (gz : Gz) (rq : Req) (s : St) (ops : List Op) (h : s.base.finished = true) :
+    runOps gz rq s ops = s := by
+  cases ops <;> simp [runOps, h]
+
+/-- a clean run from any clean state -/
+theorem runOps_clean29 (gz : Gz) (rq : Req) (hrq : reqOK rq = true) (hm : (rq.method == Method.head) = false)
+    (hinm : rq.inmMatch = false) (prog : List Op) :
+    ∀ (s : St) (K : Nat), CI rq s.base K → TI gz s → (∀ op ∈ prog, opClean op = true) →
+      Finished gz rq (runOps gz rq s prog) (fed s ++ s.base.buf.flatten ++ bodyOf prog) (tgt s.base K prog) := by
+  induction prog with
+  | nil =>
+    intro s K ci ti _
+    obtain ⟨f1, f2⟩ := hFinish_clean29 gz rq hrq hm hinm s K none ci ti
+    have e : runOps gz rq s [] = (hFinish gz rq s none).1 := by
+      unfold runOps
+      rw [if_neg (bool_ne_of_eq_false ci.wf.fin)]
+      simp [f1]
+    rw [e]
+    have ht : tgt s.base K [] = if s.base.headersWritten = true then K else s.base.status := by simp [tgt, headStatus]
+    rw [ht]
+    simpa [bodyOf] using f2
+  | cons op ops ih =>
+    intro s K ci ti hops
+    have hclean := hops op (by simp)
+    by_cases hfin : ∃ b, op = .finish b
+    · obtain ⟨b, rfl⟩ := hfin
+      obtain ⟨f1, f2⟩ := hFinish_clean29 gz rq hrq hm hinm s K b ci ti
+      have e : runOps gz rq s (.finish b :: ops) = (hFinish gz rq s b).1 := by
+        unfold runOps
+        rw [if_neg (bool_ne_of_eq_false ci.wf.fin)]
+        simp only [step, f1, Bool.false_eq_true, if_false]
+        exact runOps_finished29 gz rq _ ops f2.1
+      rw [e]
+      have ht : tgt s.base K (.finish b :: ops) = if s.base.headersWritten = true then K else s.base.status := by
+        simp [tgt, headStatus]
+      rw [ht, bodyOf_finish]
+      exact f2
+    · have hnf : ∀ b, op ≠ .finish b := fun b e => hfin ⟨b, e⟩
+      obtain ⟨K', g1, g2, g3, g4, g5⟩ := step_clean29 gz rq hm s K op ops ci ti hclean hnf
+      have e : runOps gz rq s (op :: ops) = runOps gz rq (step gz rq s op).1 ops := by
+        rw [runOps, if_neg (bool_ne_of_eq_false ci.wf.fin)]
+        rcases hst : step gz rq s op with ⟨s', r⟩
+        rw [hst] at g1
+        simp only at g1
+        subst g1
+        rfl
+      rw [e, ← g4, ← g5]
+      exact ih (step gz rq s op).1 K' g2 g3 (fun o ho => hops o (by simp [ho]))
+
+theorem TI_init (gz : Gz) (rq : Req) (ae : Option Str) : TI gz (init rq ae) :=
+  ⟨rfl, fun p hp => (by cases hp), fun _ => rfl, fun _ => rfl⟩
+
 end TornadoModel.C29
